@@ -161,6 +161,19 @@ pub fn o_c02(m: &GraphModel, orc: &Oracle, cfg: &Config, obs: &Obs) -> Vec<V> {
     if !obs.is_done {
         v.push((format!("e1:c02-not-done:{s}"), "is_done() false after join".into()));
     }
+    // the per-property helpers consult the same discoveries (and is_done)
+    for (k, (some, any_ok, no_ok)) in obs.per_prop.iter().enumerate() {
+        let found = disc.contains_key(NAMES[k]);
+        if *some != found {
+            v.push((format!("e1:c02-discovery-lookup:{s}"), format!("discovery(p{k}).is_some()={some} but discoveries() {} p{k}", if found { "contains" } else { "does not contain" })));
+        }
+        if *any_ok != found {
+            v.push((format!("e1:c02-assert-any-discovery:{s}"), format!("assert_any_discovery(p{k}) returned={any_ok} although a discovery for p{k} exists={found}")));
+        }
+        if *no_ok != (!found && obs.is_done) {
+            v.push((format!("e1:c02-assert-no-discovery:{s}"), format!("assert_no_discovery(p{k}) returned={no_ok}; discovery exists={found}, is_done={}", obs.is_done)));
+        }
+    }
     v
 }
 
@@ -368,6 +381,19 @@ pub fn o_c12(m: &GraphModel, orc: &Oracle, cfg: &Config, obs: &Obs, full: Option
             v.push((
                 format!("e1:c12-target-state-count:{s}"),
                 format!("target_state_count={c}: state_count={} but the unrestricted run generates {}", obs.count, full.count),
+            ));
+        }
+    }
+    // max_depth() is what a user reads to see how deep the check went: with one thread it is at least the depth of the
+    // deepest state that was evaluated and never beyond the configured limit (a dequeued-but-skipped state at the
+    // limit may count)
+    if !cfg.strategy.is_sim() && cfg.threads == 1 {
+        let longest = obs.visited.iter().map(|p| p.len()).max().unwrap_or(0);
+        let hi = longest.max(cfg.target_depth.unwrap_or(0));
+        if obs.max_depth < longest || obs.max_depth > hi {
+            v.push((
+                format!("e1:c12-max-depth-report:{s}"),
+                format!("max_depth()={} but the deepest evaluated state was reached through {} states (limit {:?})", obs.max_depth, longest, cfg.target_depth),
             ));
         }
     }
